@@ -27,7 +27,7 @@ STUBS = ["json.dump/json.load + open -> value-preserving capture (tuples -> list
 ASSUMPTIONS = ["CPython repr(float) <-> float() round-trips exactly through json (a number-formatting fact, not decided here)", "floats as reals"]
 OUTSIDE = ["bit-for-bit text round trip of floats through json", "more than 6 samples / 2 history steps"]
 BOUNDS = {"quick": {"samples": "4-8", "history_steps": "0-2"}, "thorough": {"samples": "4-12", "history_steps": "0-3"}}
-INSTANCE_TIMEOUT = {"quick": 230, "thorough": 1500}
+INSTANCE_TIMEOUT = {"quick": 230, "thorough": 700}
 DT = 0.5
 _L = None
 
